@@ -50,6 +50,48 @@ class Run:
         return self.extra
 
 
+MONITOR: Optional[List[Any]] = None  # when a list: every non-JSONPathError raise seen by paths() is recorded
+
+
+def is_jsonpath_error(exc: Any) -> bool:
+    return isinstance(exc, Inst) and any(c.name == "JSONPathError" for c in exc.cls.mro())
+
+
+def _scan_raises(obj: Any, out: List[Any], depth: int = 0, seen: Any = None) -> None:
+    seen = seen if seen is not None else set()
+    if depth > 6 or id(obj) in seen:
+        return
+    seen.add(id(obj))
+    if isinstance(obj, AbsRaise):
+        out.append((obj.exc, obj.site))
+    elif isinstance(obj, Ev):
+        if obj.kind == "raise":
+            out.append((obj.value, obj.site))
+        if obj.body:
+            _scan_raises(obj.body, out, depth + 1, seen)
+    elif isinstance(obj, (list, tuple)):
+        for x in obj:
+            _scan_raises(x, out, depth + 1, seen)
+    elif isinstance(obj, Stream):
+        _scan_raises(obj.events, out, depth + 1, seen)
+
+
+def _monitor(run: "Run") -> None:
+    if MONITOR is None:
+        return
+    found: List[Any] = []
+    if run.kind == "raise":
+        found.append((run.value, run.extra))
+    else:
+        _scan_raises(run.value, found)
+    for exc, site in found:
+        if is_jsonpath_error(exc):
+            continue
+        if isinstance(exc, HostExc) and exc.name in ("SystemExit", "StopIteration") and False:
+            continue
+        MONITOR.append({"exc": exc.name if isinstance(exc, HostExc) else describe(exc), "msg": getattr(exc, "msg", ""), "site": site, "entry": sorted(run.interp.touched)[:3], "world": {str(k): str(v) for k, v in list(run.ctx.world.items())[:12]}})
+
+
 def paths(model: Model, body: Callable[[Interp], Any], limit: int = 20000) -> List[Run]:
     """Explore every path of body(interp); body returns the value to report."""
     out: List[Run] = []
@@ -64,6 +106,7 @@ def paths(model: Model, body: Callable[[Interp], Any], limit: int = 20000) -> Li
 
     for res, _ctx in explore(run, limit):
         out.append(res)
+        _monitor(res)
     return out
 
 
